@@ -45,6 +45,7 @@ type Case struct {
 	FileName   string     `json:"file_name"`
 	Split      []string   `json:"split,omitempty"` // channel of script, variables, balances, metadata in the "split" configuration
 	AbsPath    bool       `json:"abs_path"`
+	PipeFiles  bool       `json:"pipe_files,omitempty"` // file arguments are pipes (/dev/stdin, /dev/fd/N), not regular files
 }
 
 type Result struct {
@@ -68,8 +69,24 @@ type procOut struct {
 	stderr string
 }
 
-func invoke(bin, dir string, args []string, stdin []byte, chunks []int) (procOut, error) {
+func invoke(bin, dir string, args []string, stdin []byte, chunks []int, extra ...[]byte) (procOut, error) {
 	cmd := osexec.Command(bin, args...)
+	// extra[i] is delivered through a pipe the child finds as descriptor 3+i (/dev/fd/3+i):
+	// what `numscript run <(make-script) -v <(make-vars)` gives the program
+	var extraR, extraW []*os.File
+	for range extra {
+		r, w, err := os.Pipe()
+		if err != nil {
+			return procOut{}, err
+		}
+		extraR, extraW = append(extraR, r), append(extraW, w)
+		cmd.ExtraFiles = append(cmd.ExtraFiles, r)
+	}
+	defer func() {
+		for _, r := range extraR {
+			r.Close()
+		}
+	}()
 	cmd.Dir = dir
 	cmd.Env = append(os.Environ(), "NO_COLOR=")
 	var so, se bytes.Buffer
@@ -114,6 +131,13 @@ func invoke(bin, dir string, args []string, stdin []byte, chunks []int) (procOut
 	}
 	if err := cmd.Start(); err != nil {
 		return procOut{}, err
+	}
+	for i := range extra {
+		extraR[i].Close() // the child has its own copy; a writer then sees EPIPE once the child is gone
+		go func(w *os.File, b []byte) {
+			w.Write(b)
+			w.Close()
+		}(extraW[i], extra[i])
 	}
 	if w != nil {
 		go func() {
@@ -252,7 +276,16 @@ func executeCheck(c Case, bin, dir string, res *Result) {
 		path = full
 	}
 	ds, nerr, panicked := libraryCheck(c.Text)
-	out, err := invoke(bin, dir, []string{"check", path}, nil, nil)
+	var out procOut
+	var err error
+	if c.PipeFiles {
+		// make-script | numscript check /dev/stdin
+		path = "/dev/stdin"
+		out, err = invoke(bin, dir, []string{"check", path}, []byte(c.Text), nil)
+		res.Probes["check_file_is_a_pipe"]++
+	} else {
+		out, err = invoke(bin, dir, []string{"check", path}, nil, nil)
+	}
 	res.Invoked++
 	if err != nil {
 		res.HarnessErr = err.Error()
@@ -450,6 +483,7 @@ func executeRun(c Case, bin, dir string, res *Result) {
 	for _, ch := range c.Channels {
 		var args []string
 		var stdin []byte
+		var extra [][]byte
 		switch ch {
 		case "raw":
 			args = append([]string{"run", "--raw", whole}, flagArgs...)
@@ -462,6 +496,12 @@ func executeRun(c Case, bin, dir string, res *Result) {
 			stdin = []byte(s)
 			args = append([]string{"run", "--stdin"}, flagArgs...)
 		case "files":
+			if c.PipeFiles {
+				extra = [][]byte{[]byte(c.Text), []byte(mustJSON(c.In.Vars)), []byte(balancesJSON(c.In)), []byte(mustJSON(c.In.Meta))}
+				args = append([]string{"run", "/dev/fd/3", "-v", "/dev/fd/4", "-b", "/dev/fd/5", "-m", "/dev/fd/6"}, flagArgs...)
+				res.Probes["run_files_are_pipes"]++
+				break
+			}
 			write("s.num", c.Text)
 			write("v.json", mustJSON(c.In.Vars))
 			write("b.json", balancesJSON(c.In))
@@ -514,7 +554,7 @@ func executeRun(c Case, bin, dir string, res *Result) {
 		if len(strings.Join(args, " ")) > 100000 {
 			continue // beyond what an argv can carry
 		}
-		out, err := invoke(bin, dir, args, stdin, c.Chunks)
+		out, err := invoke(bin, dir, args, stdin, c.Chunks, extra...)
 		res.Invoked++
 		if err != nil {
 			res.HarnessErr = err.Error()
@@ -651,6 +691,7 @@ func genCase(r *rand.Rand) Case {
 		}
 		c.FileName = core.Pick(r, []string{"s.num", "with space.num", "dir.with.dots.num", "ünï.num", "100%.num", "a%sb%d.num", "invoice[1].num", "back\\slash.num", "star*.num", "q?.num", "a[.num", "{x,y}.num", "~tilde.num", "x-dash-.num"})
 		c.AbsPath = r.IntN(2) == 0
+		c.PipeFiles = r.IntN(12) == 0
 		return c
 	}
 	c.Cmd = "run"
@@ -754,6 +795,7 @@ func genCase(r *rand.Rand) Case {
 		c.Chunks = []int{-2} // descriptor 0 is a socket
 	}
 	c.TrailingNL = r.IntN(2) == 0
+	c.PipeFiles = r.IntN(8) == 0
 	if r.IntN(5) == 0 {
 		c.LeadingWS = core.Pick(r, []string{" ", "\n", "\t", "\r\n", "  \n  "})
 	}
